@@ -32,7 +32,33 @@ def run(ctx):
             if mut and call["ret"] is not None and call["ret"] >= 0:
                 ctx.violation("C15", "readonly-mutating-call:%s:%s" % (op, call["name"]),
                               "%s issued %s(%s)" % (op, call["name"], call["args"][:120]))
+    # the built binary: read-only commands (also on a directory with crash residue in the work area, or without a work area)
+    # and every refused command leave the directory byte-identical
+    import clifam
+    clifam.replay(ctx, "C15", only=lambda c: c["cmd"] in ("check", "list", "list-full", "authenticate") or c["pw"] in ("policy-fails", "wrong")
+                  or c["target"] in ("invalid-name",))
+    # the running agent: logins (right, wrong, unknown user) over every transport with upgrades off, and management requests
+    # over HTTP without a session, change nothing
+    import agentfam as af
+    files = {"u1": {"present": True, "pw": "p1", "set": 1, "adm": False}, "u2": {"present": True, "pw": "p2", "set": 2, "adm": True},
+             "u3": {"present": False, "pw": "", "set": 0, "adm": False}}
+    steps, i = [], 0
+    for via in ("sasl", "http", "basic", "ldap", "api"):
+        for u, pw in (("u1", "p1"), ("u1", "p2"), ("u3", "p1"), ("u2", "p2"), ("u2", "p3")):
+            i += 1
+            steps.append({"t": "send", "c": "r%d" % i, "k": "auth", "u": u, "p": pw, "a": False, "via": via})
+    for k, u, pw, a in (("add", "u3", "p3", True), ("update", "u1", "p3", False), ("remove", "u1", "", False), ("setadmin", "u1", "", True),
+                        ("update", "u2", "p1", False)):
+        i += 1
+        steps.append({"t": "send", "c": "r%d" % i, "k": k, "u": u, "p": pw, "a": a, "via": "http"})      # no session: refused
+    steps += [{"t": "sleep", "n": 50}, {"t": "free"}]
+    scs = [{"name": "readonly-frontends-%s" % (mode or "off"), "mode": mode, "default": 2, "files": files, "passwords": af.PASSWORDS, "steps": steps,
+            "gated": False, "seed": 3, "frontends": True, "http_admin": ["u2", "p2"], "novalidate": True, "expect_unchanged": True,
+            "expect_prop": "C15", "expect_key": "frontend-request-changed-store"} for mode in ("", "http://127.0.0.1:9/api/update")]
+    results, events = af.run_scenarios(ctx, scs, "c15")
+    af.judge(ctx, scs, results, events, "c15", "C15")
     cov = ctx.coverage
+    cov["agent_requests"] = sum(1 for e in events if e["ev"] == "call")
     cov["fault_runs"] = n
     cov["fault_runs_requested"] = jobs
     cov["readonly_calls_inspected"] = ro
